@@ -33,6 +33,18 @@ Inductive request :=
 Definition req_agent (r : request) : Z := match r with RNew _ a _ _ _ _ _ => a | RCancel _ a _ => a end.
 Definition req_market (r : request) : Z := match r with RNew _ _ m _ _ _ _ => m | RCancel _ _ m => m end.
 
+(* ---------------- events of the run (the observable trace) ---------------- *)
+Inductive event :=
+| EvConsult (a n : Z)                                          (* Agent.submit_orders was called *)
+| EvProbe (ev : Z) (k : hkind) (before : bool) (clk mk : Z) (extra : list ov)   (* a probe event's hook ran *)
+| EvLog (r : record)                                           (* a record as delivered to the logger *)
+| EvSimBegin | EvSimEnd
+| EvSessBegin (sid clk : Z) | EvSessEnd (sid clk : Z)
+| EvStep (kind : Z) (fields : list ov)                         (* market step begin (9) / end (10) record *)
+| EvCallback (a kind : Z) (r : record) (hold : list ov) (switch running : bool)
+| EvRound (mk : Z) (running : bool) (sid : Z)                  (* Market._execution was called, in session sid *)
+| EvTruth (r : record) (extra : list ov).                      (* the market accepted / filled / expired *)
+
 (* ---------------- state ---------------- *)
 Record hook := mkH { h_ev : Z; h_kind : hkind; h_before : bool; h_times : option (list Z); h_inst : option Z; h_index_only : bool }.
 Record evstate := mkES { es_id : Z; es_kind : evkind; es_trigger : Z; es_spent : bool; es_started : Z; es_count : Z;
@@ -45,7 +57,7 @@ Record mkt := mkMk { mk_m : market; mk_comps : option (list Z); mk_shares : Z }.
 Record sim := mkS {
   s_markets : list mkt; s_agents : list agent; s_sessions : list sess; s_cur : Z;
   s_hooks : list hook; s_events : list evstate;
-  s_pending : list ov; s_trace : list ov;
+  s_pending : list event; s_trace : list event;
   s_tape : list tape_item; s_batches : list (Z * list request); s_funds : list (Z * Z * Q);
   s_tags : list (Z * (Z * Z));
   s_err : option err
@@ -63,8 +75,8 @@ Definition fail (s : sim) (e : err) : sim :=
 Definition ok (s : sim) : bool := match s_err s with None => true | Some _ => false end.
 (* run f unless the run has already ended with an exception *)
 Definition guard (s : sim) (f : sim -> sim) : sim := if ok s then f s else s.
-Definition emit (s : sim) (e : ov) : sim := s <| s_trace := e :: s_trace s |>.
-Definition write (s : sim) (e : ov) : sim := s <| s_pending := s_pending s ++ [e] |>.
+Definition emit (s : sim) (e : event) : sim := s <| s_trace := e :: s_trace s |>.
+Definition write (s : sim) (e : event) : sim := s <| s_pending := s_pending s ++ [e] |>.
 Definition flush (s : sim) : sim := s <| s_trace := rev (s_pending s) ++ s_trace s |> <| s_pending := [] |>.
 
 (* ---------------- lookups ---------------- *)
@@ -117,26 +129,37 @@ Definition wavg (s : sim) (comps : list Z) (get : mkt -> option Q) : option Q :=
 Definition holdings_ov (a : agent) : list ov := [VQ (a_cash a); VL (map (fun kv => VZ (snd kv)) (a_assets a))].
 
 (* ---------------- event records ---------------- *)
-Definition ev_step (s : sim) (kind : Z) (x : mkt) : ov :=
+Definition ev_step (s : sim) (kind : Z) (x : mkt) : event :=
   let t := mtime x in
   let idx := match mk_comps x with
              | Some comps => voa (wavg s comps (fun c => mprice_at c t))
              | None => VN
              end in
   let fundv := if is_index x then voa (geto (m_fund (mk_m x)) t) else voq (geto (m_fund (mk_m x)) t) in
-  VL ([VZ 3; VZ kind; VZ (s_cur s); VZ (m_id (mk_m x)); VZ t; VB (m_running (mk_m x)); VB (cur_switch s);
-       voq (mprice_at x t); fundv; idx] ++
-      (if kind =? 10 then [VL (map (fun a => VL (holdings_ov a)) (s_agents s))] else [])).
+  EvStep kind ([VZ (s_cur s); VZ (m_id (mk_m x)); VZ t; VB (m_running (mk_m x)); VB (cur_switch s);
+                voq (mprice_at x t); fundv; idx] ++
+               (if kind =? 10 then [VL (map (fun a => VL (holdings_ov a)) (s_agents s))] else [])).
 
 Definition rec_fields (r : record) : list ov :=
   match ov_record r with VL l => l | x => [x] end.
-Definition ev_log (r : record) : ov := VL (VZ 3 :: rec_fields r).
-Definition ev_cb (a : agent) (kind : Z) (r : record) (switch running : bool) : ov :=
-  VL ([VZ 5; VZ (a_id a); VZ kind] ++ tl (rec_fields r) ++ holdings_ov a ++ [VB switch; VB running]).
-(* ground truth taken at the market's own methods *)
-Definition ev_truth (r : record) (extra : list ov) : ov := VL (VZ 6 :: rec_fields r ++ extra).
-Definition ev_probe (s : sim) (ev : Z) (k : hkind) (before : bool) (mkid : Z) (extra : list ov) : ov :=
-  VL [VZ 2; VZ ev; VZ (hkind_code k); VB before; VZ (clock s); VZ mkid; VL extra].
+Definition ev_probe (s : sim) (ev : Z) (k : hkind) (before : bool) (mkid : Z) (extra : list ov) : event :=
+  EvProbe ev k before (clock s) mkid extra.
+
+(* rendering for the correspondence check *)
+Definition render (e : event) : ov :=
+  match e with
+  | EvConsult a n => VL [VZ 1; VZ a; VZ n]
+  | EvProbe ev k before clk mk extra => VL [VZ 2; VZ ev; VZ (hkind_code k); VB before; VZ clk; VZ mk; VL extra]
+  | EvLog r => VL (VZ 3 :: rec_fields r)
+  | EvSimBegin => VL [VZ 3; VZ 5]
+  | EvSimEnd => VL [VZ 3; VZ 6]
+  | EvSessBegin sid clk => VL [VZ 3; VZ 7; VZ sid; VZ clk]
+  | EvSessEnd sid clk => VL [VZ 3; VZ 8; VZ sid; VZ clk]
+  | EvStep kind fields => VL (VZ 3 :: VZ kind :: fields)
+  | EvCallback a kind r hold sw run => VL ([VZ 5; VZ a; VZ kind] ++ tl (rec_fields r) ++ hold ++ [VB sw; VB run])
+  | EvRound mk run sid => VL [VZ 4; VZ mk; VB run; VZ sid]
+  | EvTruth r extra => VL (VZ 6 :: rec_fields r ++ extra)
+  end.
 
 (* ---------------- hook table ---------------- *)
 Definition hook_matches (k : hkind) (before : bool) (h : hook) : bool :=
@@ -339,31 +362,52 @@ Definition apply_fill_holdings (ags : list agent) (r : record) : list agent :=
 
 Definition callback (s : sim) (aid kind : Z) (r : record) (mkid : Z) : sim :=
   match find_agent aid (s_agents s), find_mkt mkid (s_markets s) with
-  | Some a, Some x => emit s (ev_cb a kind r (cur_switch s) (m_running (mk_m x)))
+  | Some a, Some x => emit s (EvCallback (a_id a) kind r (holdings_ov a) (cur_switch s) (m_running (mk_m x)))
   | _, _ => fail s EIndex
   end.
 
+(* ---------------- atomic updates at the points where the market changes ---------------- *)
+(* a record is born: the ground-truth event is emitted and the log is handed to the logger (pending) *)
+Definition log_event (s : sim) (r : record) (extra : list ov) : sim := write (emit s (EvTruth r extra)) (EvLog r).
+
+Definition do_accept_order (s : sim) (mkid : Z) (x : mkt) (m' : market) (rc : record) (tag : Z) : sim :=
+  let oid := match rc with ROrder o => Match.oid o | _ => -1 end in
+  let s := set_market s mkid m' in
+  let s := s <| s_tags := (tag, (mkid, oid)) :: s_tags s |> in
+  log_event s rc [VZ tag; voq (mprice_at x (mtime x)); voq (mprice_at x 0)].
+
+Definition do_accept_cancel (s : sim) (mkid : Z) (m' : market) (rc : record) : sim :=
+  log_event (set_market s mkid m') rc [].
+
+(* a round's fills: the book changes, every fill is logged, and the holdings of all parties are updated for the whole
+   round (Simulator._update_agents_for_execution) before anybody is notified *)
+Definition do_fills (s : sim) (mkid : Z) (m' : market) (logs : list record) : sim :=
+  let s := set_market s mkid m' in
+  let s := fold_left (fun s r => log_event s r []) logs s in
+  s <| s_agents := fold_left apply_fill_holdings logs (s_agents s) |>.
+
+Definition do_tick (s : sim) (mkid : Z) (m' : market) (recs : list record) : sim :=
+  fold_left (fun s r => log_event s r []) recs (set_market s mkid m').
+
 (* ---------------- one request: runner lines 447-471 / 507-537 ---------------- *)
+Definition notify_fill (s : sim) (mkid : Z) (r : record) : sim :=
+  match r with
+  | RExec _ t ba sa bi si _ _ =>
+      let s := guard s (fun s => callback s ba 3 r mkid) in
+      let s := guard s (fun s => callback s sa 3 r mkid) in
+      guard s (fun s => fire_exec_after s t mkid [VZ bi; VZ si])
+  | _ => s
+  end.
+
 Definition run_round (s : sim) (mkid : Z) : sim :=
   if negb (cur_switch s) then s else
   match find_mkt mkid (s_markets s) with
   | None => fail s EIndex
   | Some x =>
-    let s := emit s (VL [VZ 4; VZ mkid; VB (m_running (mk_m x))]) in
+    let s := emit s (EvRound mkid (m_running (mk_m x)) (s_cur s)) in
     match execution (mk_m x) with
     | Err e => fail s e
-    | Ok (m', logs) =>
-      let s := set_market s mkid m' in
-      let s := fold_left (fun s r => write (emit s (ev_truth r [])) (ev_log r)) logs s in
-      let s := s <| s_agents := fold_left apply_fill_holdings logs (s_agents s) |> in
-      fold_left (fun s r =>
-                   match r with
-                   | RExec _ t ba sa bi si _ _ =>
-                       let s := guard s (fun s => callback s ba 3 r mkid) in
-                       let s := guard s (fun s => callback s sa 3 r mkid) in
-                       guard s (fun s => fire_exec_after s t mkid [VZ bi; VZ si])
-                   | _ => s
-                   end) logs s
+    | Ok (m', logs) => fold_left (fun s r => notify_fill s mkid r) logs (do_fills s mkid m' logs)
     end
   end.
 
@@ -386,10 +430,7 @@ Definition handle_request (s : sim) (r : request) : sim :=
           | Err e => fail s e
           | Ok (m', rec) =>
             let oid := match rec with ROrder o => Match.oid o | _ => -1 end in
-            let s := set_market s mkid m' in
-            let s := s <| s_tags := (tag, (mkid, oid)) :: s_tags s |> in
-            let s := emit s (ev_truth rec [VZ tag; voq (mprice_at x (mtime x)); voq (mprice_at x 0)]) in
-            let s := write s (ev_log rec) in
+            let s := do_accept_order s mkid x m' rec tag in
             let s := callback s ag 1 rec mkid in
             let s := guard s (fun s => fire_simple s HOrder false (m_time m') mkid [VZ oid]) in
             guard s (fun s => run_round s mkid)
@@ -407,9 +448,7 @@ Definition handle_request (s : sim) (r : request) : sim :=
         match cancel_order (mk_m x) i with
         | Err e => fail s e
         | Ok (m', rec) =>
-          let s := set_market s mkid m' in
-          let s := emit s (ev_truth rec []) in
-          let s := write s (ev_log rec) in
+          let s := do_accept_cancel s mkid m' rec in
           let s := callback s ag 2 rec mkid in
           let s := guard s (fun s => fire_simple s HCancel false (m_time m') mkid [VZ i]) in
           guard s (fun s => run_round s mkid)
@@ -437,7 +476,7 @@ Definition permute {A} (l : list A) (p : list nat) : list A :=
 Definition consult (s : sim) (aid : Z) : sim * list request :=
   match s_batches s with
   | (a, b) :: r =>
-      if a =? aid then (emit (s <| s_batches := r |>) (VL [VZ 1; VZ aid; VZ (Z.of_nat (length b))]), b)
+      if a =? aid then (emit (s <| s_batches := r |>) (EvConsult aid (Z.of_nat (length b))), b)
       else (fail s EOther, [])
   | [] => (fail s EOther, [])
   end.
@@ -522,8 +561,7 @@ Definition tick_market (s : sim) (x : mkt) : sim :=
     | None => fail s EIndex
     | Some f =>
       let '(m', recs) := tick (mk_m x) f in
-      let s := set_market s (m_id (mk_m x)) m' in
-      fold_left (fun s r => write (emit s (ev_truth r [])) (ev_log r)) recs s
+      do_tick s (m_id (mk_m x)) m' recs
     end
   end.
 Definition tick_all (s : sim) : sim :=
@@ -559,21 +597,24 @@ Definition one_step (s : sim) : sim :=
 Fixpoint iterate (n : nat) (s : sim) : sim :=
   match n with 0%nat => s | S k => iterate k (one_step s) end.
 
+(* _iterate_market_updates: every market's running flag := the session's (current) execution switch *)
+Definition begin_iteration (s : sim) : sim :=
+  let sw := cur_switch s in
+  s <| s_markets := map (fun x => x <| mk_m := (mk_m x) <| m_running := sw |> |>) (s_markets s) |>.
+
 Definition run_session (s : sim) (se0 : sess) : sim :=
   if negb (ok s) then s else
   let sid := se_id se0 in
   let s := s <| s_cur := sid |> in
   let s := fire_simple s HSession true (se_start se0) (-1) [VZ sid; VZ (se_start se0)] in
   if negb (ok s) then s else
-  let s := flush (write s (VL [VZ 3; VZ 7; VZ sid; VZ (clock s)])) in
-  (* _iterate_market_updates: every market's running flag := the session's (current) execution switch *)
-  let sw := cur_switch s in
-  let s := s <| s_markets := map (fun x => x <| mk_m := (mk_m x) <| m_running := sw |> |>) (s_markets s) |> in
+  let s := flush (write s (EvSessBegin sid (clock s))) in
+  let s := begin_iteration s in
   let s := iterate (Z.to_nat (se_steps se0)) s in
   if negb (ok s) then s else
   let s := fire_simple s HSession false (se_start se0 + se_steps se0 - 1) (-1) [VZ sid; VZ (se_start se0 + se_steps se0 - 1)] in
   if negb (ok s) then s else
-  flush (write s (VL [VZ 3; VZ 8; VZ sid; VZ (clock s)])).
+  flush (write s (EvSessEnd sid (clock s))).
 
 (* ---------------- setup ---------------- *)
 Fixpoint mk_sessions (l : list sconf) (start : Z) : list sess :=
@@ -604,14 +645,16 @@ Definition init_sim (c : config) (tape : list tape_item) (batches : list (Z * li
 (* SequentialRunner._run *)
 Definition run (c : config) (tape : list tape_item) (batches : list (Z * list request)) (funds : list (Z * Z * Q)) : sim :=
   let s := init_sim c tape batches funds in
-  let s := flush (write s (VL [VZ 3; VZ 5])) in
+  let s := flush (write s EvSimBegin) in
   let s := tick_all s in
   let s := fold_left run_session (s_sessions s) s in
   if negb (ok s) then s else
-  flush (write s (VL [VZ 3; VZ 6])).
+  flush (write s EvSimEnd).
 
+(* the run's events in chronological order *)
+Definition events_of (s : sim) : list event := rev (s_trace s).
 Definition trace_of (s : sim) : list ov :=
-  rev (s_trace s) ++ match s_err s with Some e => [VL [VZ 9; VZ (err_code e)]] | None => [] end.
+  map render (events_of s) ++ match s_err s with Some e => [VL [VZ 9; VZ (err_code e)]] | None => [] end.
 
 Definition run_case_s (x : config * list tape_item * list (Z * list request) * list (Z * Z * Q)) : ov :=
   let '(c, tape, batches, funds) := x in VL (trace_of (run c tape batches funds)).
